@@ -949,7 +949,8 @@ func (x *Exec) runToCompletion(s *State, fn *ssa.Function, args []Value) *State 
 		r = x.merge(r, o)
 	}
 	x.finalStates = nil
-	r.Threads = []*Thread{{ID: 0}}
+	// goroutines started by the initialiser (e.g. an id generator) live on, blocked where they are
+	r.Threads[0] = &Thread{ID: 0}
 	r.Cur = 0
 	r.G = x.tb.True
 	r.PC = nil
